@@ -7,6 +7,10 @@ func All() []*vk.Check {
 	return []*vk.Check{
 		C01(),
 		C02(),
+		C03(),
+		C04(),
+		C05(),
+		C06(),
 		C07(),
 		C08(),
 		C09(),
@@ -15,6 +19,8 @@ func All() []*vk.Check {
 		C15(),
 		C16(),
 		C17(),
+		C18(),
 		C19(),
+		C20(),
 	}
 }
